@@ -79,7 +79,7 @@ func (d *DB) Balances(table string) (map[factom.FAAddress]map[string]uint64, err
 	out := map[factom.FAAddress]map[string]uint64{}
 	for rows.Next() {
 		var adr []byte
-		vals := make([]int64, len(ts))
+		vals := make([]interface{}, len(ts))
 		ptrs := make([]interface{}, len(ts)+1)
 		ptrs[0] = &adr
 		for i := range vals {
@@ -92,7 +92,22 @@ func (d *DB) Balances(table string) (map[factom.FAAddress]map[string]uint64, err
 		copy(fa[:], adr)
 		m := map[string]uint64{}
 		for i, t := range ts {
-			m[t] = uint64(vals[i])
+			switch v := vals[i].(type) {
+			case int64:
+				m[t] = uint64(v)
+			case float64:
+				// a sum that left the INTEGER range: SQLite stores a REAL. Report it as what it is (an
+				// absurd balance), not as an observation failure.
+				if v >= 0 && v < 18446744073709551615.0 {
+					m[t] = uint64(v)
+				} else {
+					m[t] = ^uint64(0)
+				}
+			case nil:
+				m[t] = 0
+			default:
+				return nil, fmt.Errorf("balance column %s of %s has unexpected type %T", col(t), table, v)
+			}
 		}
 		out[fa] = m
 	}
